@@ -86,6 +86,11 @@ MultiTag Block::createMultiTag(const std::string &name, const std::string &type,
     if (hasMultiTag(name)) {
         throw DuplicateName("createMultiTag");
     }
+    // the backend links the positions right after it has created the multi tag:
+    // refuse positions of another block before anything is created
+    if (!hasDataArray(positions.id())) {
+        throw std::runtime_error("Block::createMultiTag: positions DataArray not found in block!");
+    }
     return backend()->createMultiTag(name, type, positions);
 }
 
